@@ -216,7 +216,7 @@ def parse_template(path):
                 elif word in ("spec", "pre", "post", "loop", "after", "before", "header", "footer"):
                     sec = (word, rest, [])
                     cur.sections.append(sec)
-                elif word in ("sub", "ret", "sigsub", "norule", "label"):
+                elif word in ("sub", "ret", "sigsub", "norule", "label", "attr"):
                     cur.sections.append((word, rest, []))
                     sec = None
                 elif word == "#" or word == "":
@@ -445,6 +445,10 @@ class Assembler:
             for x, n in header:
                 self.out.pairs.append(self._tpl(x, tpl_path, n, "header"))
         else:
+            for w, a, c in blk.sections:
+                if w == "attr":
+                    # verifier-only attribute (no effect on the running code)
+                    self.out.pairs.append((a, ("tpl", os.path.relpath(tpl_path, self.verif), blk.tpl_line, "attr")))
             self.out.pairs.extend(sig_lines.pairs)
         for x, n in spec:
             self.out.pairs.append(self._tpl(x, tpl_path, n, "spec"))
